@@ -37,8 +37,10 @@ Definition sub_call (sc : scall) : call :=
                (fixes/C04-default-config-without-subcommand-section-rejected.patch). *)
 (* fx_envsub:  _load_env_vars asks the subcommand named by PREFIX_SUBCOMMAND for its environment only (defaults=False)
                (fixes/C04-subcommand-variable-resets-section-to-defaults.patch) *)
-Record fixes := { fx_append : bool; fx_section : bool; fx_envsub : bool }.
-Definition nofix : fixes := {| fx_append := false; fx_section := false; fx_envsub := false |}.
+(* fx_leaf:    ... and copies that result leaf by leaf (`for k, v in pcfg.items()`), not by top-level entry
+               (fixes/C04-envsub-leafwise.patch) *)
+Record fixes := { fx_append : bool; fx_section : bool; fx_envsub : bool; fx_leaf : bool }.
+Definition nofix : fixes := {| fx_append := false; fx_section := false; fx_envsub := false; fx_leaf := false |}.
 
 Definition aa_step_sub (fx : fixes) (pown : parser) (nm : name) (ps : parser) (cfg : node) (key : tpath) : node :=
   match find_action pown (strip key) with
@@ -130,7 +132,9 @@ Definition load_env_vars_sub (fx : fixes) (sc : scall) : node :=
                       let cfg_env := load_env_vars (s_sub sc) None (s_subenv sc) in
                       let pcfg := if fx_envsub fx then cfg_env      (* repaired: defaults=False *)
                                   else merge_config (s_sub sc) cfg_env (get_defaults (s_sub sc) []) in
-                      f_set_below (s_name sc) (kids pcfg) cfg
+                      if fx_leaf fx
+                      then fold_left (fun t kv => ns_set (s_name sc :: fst kv) (Leaf (snd kv)) t) (items pcfg) cfg
+                      else f_set_below (s_name sc) (kids pcfg) cfg
                  else cfg
              | None => cfg
              end in
